@@ -67,13 +67,13 @@ func discoverModules() ([]moduleInfo, error) {
 // Prog is one loaded module (its packages plus all dependencies, from source).
 type Prog struct {
 	assignedFields map[*types.Info]map[*types.Var]bool // fieldEverAssigned cache
-	callSites      map[*types.Info]map[*types.Func]int  // singleCallSite cache
-	sentinels      map[*types.Var]bool                  // sentinelError cache
-	Module string
-	Tags   string
-	Fset   *token.FileSet
-	Roots  []*packages.Package
-	Pkgs   map[string]*packages.Package // by PkgPath, transitive
+	callSites      map[*types.Info]map[*types.Func]int // singleCallSite cache
+	sentinels      map[*types.Var]bool                 // sentinelError cache
+	Module         string
+	Tags           string
+	Fset           *token.FileSet
+	Roots          []*packages.Package
+	Pkgs           map[string]*packages.Package // by PkgPath, transitive
 
 	ssaProg *ssa.Program
 	ssaPkgs map[string]*ssa.Package
